@@ -160,8 +160,8 @@ func c13Scenarios(tier string) []*Scenario {
 	kinds := []env.RunKind{env.RunSuccess, env.RunErrorOut, env.RunCrash}
 	kindName := map[env.RunKind]string{env.RunSuccess: "ok", env.RunErrorOut: "err", env.RunCrash: "crash"}
 	for n := 0; n <= 3; n++ {
-		for _, par := range []int64{1, 2, 3} {
-			if n <= 1 && par > 1 {
+		for _, par := range []int64{0, 1, 2, 3} { // 0: the parallelism field is left out (default 1)
+			if n <= 1 && par != 1 {
 				continue
 			}
 			for _, sub := range []*Program{subProg(), subProgErr()} {
